@@ -138,7 +138,7 @@ def FieldR (reg : List (String × Addr)) (h : Heap) (a : Addr) : Prop :=
 
 /-- a registered type all of whose references (its own and its members') name registered types -/
 def TypeR (reg : List (String × Addr)) (h : Heap) (a : Addr) : Prop :=
-  ∃ t, h.readType a = some t ∧ refsIn reg t.ifaces ∧ refsIn reg t.members ∧
+  ∃ t, h.readType a = some t ∧ refsIn reg (typeRefs t) ∧
     (match t.kind with
      | .object | .interface => ∀ x, x ∈ t.fields → FieldR reg h x
      | .input => ∀ x, x ∈ t.fields → ArgR reg h x
@@ -161,9 +161,11 @@ theorem FieldR.keep {reg : List (String × Addr)} {h h' : Heap} (n : NVeq h h') 
   rw [base_name_of_erase e]; exact hin
 
 theorem TypeR.keep {reg : List (String × Addr)} {h h' : Heap} (n : NVeq h h') {a : Addr} (r : TypeR reg h a) : TypeR reg h' a := by
-  obtain ⟨t, ht, hi, hm, hk⟩ := r
+  obtain ⟨t, ht, hi, hk⟩ := r
   obtain ⟨t', ht', ek, _, ef, ei, em⟩ := nveq_type n ht
-  refine ⟨t', ht', refsIn_of_erase ei hi, refsIn_of_erase em hm, ?_⟩
+  refine ⟨t', ht', ?_, ?_⟩
+  · simp only [typeRefs, ek]
+    cases hkk : t.kind <;> simp only [typeRefs, hkk] at hi ⊢ <;> first | exact refsIn_of_erase ei hi | exact refsIn_of_erase em hi | exact hi
   rw [ek, ef]
   cases hkk : t.kind <;> simp only [hkk] at hk ⊢
   · exact fun x hx => (hk x hx).keep n
@@ -261,7 +263,7 @@ theorem fields_heal_exact (reg : List (String × Addr)) (tn : String) (as : List
 
 theorem onType_heal_exact (reg : List (String × Addr)) (h : Heap) (a : Addr) (r : TypeR reg h a) :
     (onType .heal reg h a).2 = some a ∧ NVeq h (onType .heal reg h a).1 := by
-  obtain ⟨t, ht, hi, hm, hk⟩ := r
+  obtain ⟨t, ht, hi, hk⟩ := r
   simp only [onType, ht]
   cases hkk : t.kind with
   | object =>
@@ -271,7 +273,7 @@ theorem onType_heal_exact (reg : List (String × Addr)) (h : Heap) (a : Addr) (r
     simp only [onComposite, compositeRest, e1, rebuiltOrSame, bne_self_eq_false, Bool.false_eq_true, if_false, hkk, beq_self_eq_true, if_true, ht1]
     refine ⟨by simp, n1.trans (nveq_write _ a (.type t1) _ (readType_read ht1) ?_)⟩
     simp only [eraseR, Obj.type.injEq]
-    rw [healedRefs_exact reg t1.ifaces (refsIn_of_erase ei hi)]
+    rw [healedRefs_exact reg t1.ifaces (refsIn_of_erase ei (by simpa [typeRefs, hkk] using hi))]
   | interface =>
     simp only [hkk] at hk
     obtain ⟨e1, n1⟩ := fields_heal_exact reg t.name t.fields h hk
@@ -286,7 +288,7 @@ theorem onType_heal_exact (reg : List (String × Addr)) (h : Heap) (a : Addr) (r
     simp only [onUnion]
     refine ⟨by simp, nveq_write h a (.type t) _ (readType_read ht) ?_⟩
     simp only [eraseR, Obj.type.injEq]
-    rw [healedRefs_exact reg t.members hm]
+    rw [healedRefs_exact reg t.members (by simpa [typeRefs, hkk] using hi)]
   | scalar => simp only [onLeaf]; exact ⟨by simp, NVeq.refl h⟩
   | enum => simp only [onLeaf]; exact ⟨by simp, NVeq.refl h⟩
 
